@@ -308,6 +308,17 @@ def run_lines(cmd, lines, timeout=900, par=NPROC, env=None, cwd=None):
         e.update(env)
     results = [None] * len(chunks)
 
+    sanlog = os.environ.get("VERIF_SAN_LOG")
+    if os.environ.get("VERIF_SANITIZE"):
+        e.setdefault("ASAN_OPTIONS", "detect_leaks=1:exitcode=97:allocator_may_return_null=1")
+        e.setdefault("UBSAN_OPTIONS", "print_stacktrace=1:halt_on_error=1")
+
+    def san(case, rc, se):
+        """record a sanitizer report (C07) together with the case that produced it"""
+        if sanlog and se and re.search(r"Sanitizer|runtime error:", se):
+            with open(sanlog, "a") as f:
+                f.write(json.dumps({"cmd": cmd, "case": case, "rc": rc, "report": se[-3000:]}) + "\n")
+
     def work(i, ch):
         out = []
         rest = list(ch)
@@ -316,7 +327,15 @@ def run_lines(cmd, lines, timeout=900, par=NPROC, env=None, cwd=None):
             ls = ls[:len(rest)]
             out += ls
             if len(ls) == len(rest):
+                if sanlog and rc != 0 and se and "Sanitizer" in se:      # report at exit (leaks): find the case
+                    found = False
+                    for cs in rest[:400]:
+                        rc1, _, se1 = _run_once(cmd, [cs], timeout, e, cwd)
+                        if rc1 != 0 and se1 and "Sanitizer" in se1:
+                            san(cs, rc1, se1); found = True; break
+                    if not found: san("<chunk of %d cases, not reproduced case by case>" % len(rest), rc, se)
                 break
+            san(rest[len(ls)], rc, se)
             tail = " ".join((se or "").strip().split("\n")[-4:])[:500]
             out.append("CRASH rc=%s %s" % (rc, tail))
             rest = rest[len(ls) + 1:]
@@ -350,6 +369,9 @@ def build_cpp(name, srcs, flags=None, libs=None, mpi=False, shim=False, sanitize
     base = ["-std=c++14", "-O1", "-g", "-D" + GUARD] + ["-D" + d for d in (defines or [])]
     if mpi:
         base.append("-DVERIF_WITH_MPI")
+    if sanitize is None and os.environ.get("VERIF_SANITIZE") and not mpi:
+        sanitize = os.environ["VERIF_SANITIZE"]          # C07: rebuild every harness with sanitizers
+        name = name + "_" + sanitize
     if sanitize == "asan":
         base += ["-fsanitize=address,undefined", "-fno-sanitize-recover=all", "-fno-omit-frame-pointer"]
     elif sanitize == "tsan":
@@ -445,6 +467,9 @@ class Check:
 
     # -- steps ---------------------------------------------------------------------
     def step_prove(self):
+        if os.environ.get("VERIF_C07_SUBRUN"):      # sanitizer re-run of this check's stream by C07: the proofs are C07's own
+            self.proof = {"obligations": 0, "discharged": 0, "theorems": [], "problems": [], "axioms_used": []}
+            return True
         self.proof = prove(self.theorem_files)
         for pb in self.proof["problems"]:
             self.violation("proof obligation no longer checks: " + pb[:300],
